@@ -218,6 +218,8 @@ type knownFile struct {
 type childOutcome struct {
 	idx      int
 	altBin   string // binary this child ran in when it is not the parent's own (the GOARCH=386 build)
+	logGlob  string // race-detector log files of this child: when they outgrow raceLogCap the child is stopped
+	logCut   bool   // ... which happened
 	race     bool
 	maxprocs int
 	res      *core.Result
@@ -227,6 +229,9 @@ type childOutcome struct {
 	progCase int64
 	logTail  string
 }
+
+// raceLogCap bounds the race-detector output of one race-pass child.
+const raceLogCap = 48 << 20
 
 func cmdRun(args []string) int {
 	fs := flag.NewFlagSet("run", flag.ExitOnError)
@@ -294,10 +299,41 @@ func cmdRun(args []string) int {
 			return
 		}
 		done := make(chan error, 1)
-		go func() { done <- cmd.Wait() }()
+		finished := make(chan struct{})
+		go func() { done <- cmd.Wait(); close(finished) }()
+		cut := make(chan struct{})
+		if o.logGlob != "" {
+			// a racy library makes the detector write a report for every occurrence: tens of megabytes hold
+			// every distinct report many times over, gigabytes only fill the disk
+			go func() {
+				for {
+					select {
+					case <-finished:
+						return
+					case <-time.After(500 * time.Millisecond):
+					}
+					var total int64
+					files, _ := filepath.Glob(o.logGlob)
+					for _, f := range files {
+						if st, err := os.Stat(f); err == nil {
+							total += st.Size()
+						}
+					}
+					if total > raceLogCap {
+						close(cut)
+						return
+					}
+				}
+			}()
+		}
 		select {
 		case err := <-done:
 			o.err = err
+		case <-cut:
+			o.logCut = true
+			cmd.Process.Kill()
+			<-done
+			o.err = fmt.Errorf("stopped: more than %d MiB of race reports", raceLogCap>>20)
 		case <-time.After(wd):
 			o.timedOut = true
 			cmd.Process.Signal(os.Interrupt)
@@ -383,8 +419,8 @@ func cmdRun(args []string) int {
 		}
 		for k, mp := range mps {
 			wg.Add(1)
-			o := &childOutcome{idx: k, race: true, maxprocs: mp}
 			lp := filepath.Join(work, fmt.Sprintf("race_%d", k))
+			o := &childOutcome{idx: k, race: true, maxprocs: mp, logGlob: lp + ".*"}
 			env := []string{
 				"GORACE=halt_on_error=0 log_path=" + lp,
 				fmt.Sprintf("GOMAXPROCS=%d", mp),
@@ -410,6 +446,10 @@ func cmdRun(args []string) int {
 	})
 	confirmed := map[string][3]string{}
 	for _, o := range outcomes {
+		if o.res == nil && o.logCut {
+			merged.Notes = append(merged.Notes, fmt.Sprintf("race pass %d (GOMAXPROCS=%d) was stopped after %d MiB of race-detector reports; the reports written until then are evaluated", o.idx, o.maxprocs, raceLogCap>>20))
+			continue
+		}
 		if o.res == nil {
 			// dead child: attribute and confirm (once per sub-monitor: several workers usually die of the same cause)
 			ck := fmt.Sprintf("%v|%s|%v", o.race, o.progMon, o.timedOut)
@@ -479,7 +519,12 @@ func cmdRun(args []string) int {
 	raceBlocks := 0
 	raceDistinct := map[string]string{}
 	for _, lp := range raceLogs {
-		b, err := os.ReadFile(lp)
+		f, err := os.Open(lp)
+		if err != nil {
+			continue
+		}
+		b, err := io.ReadAll(io.LimitReader(f, raceLogCap+(8<<20)))
+		f.Close()
 		if err != nil {
 			continue
 		}
